@@ -521,6 +521,15 @@ def _case(draw, frames):
     nf = draw(st.integers(1, frames))
     stray = "unknown" if "unknown" not in targets and draw(st.booleans()) else None
     fs = [draw(_frame(labels, cams, uuids, 12, stray)) for _ in range(nf)]
+    outside = [x for x in allv if x not in targets and x not in ("unknown", "false_positive")]
+    if outside and draw(st.integers(0, 3)) == 0:
+        # objects handed over unfiltered: a correctly classified pair whose label is not evaluated (outside the target list)
+        # belongs to no target label's counts
+        lab = draw(st.sampled_from(outside))
+        for f in fs:
+            if draw(st.booleans()):
+                f["gt"].append([cams[0], "ux", lab])
+                f["est"].append([cams[0], "ux", lab])
     return {"fam": fam, "uf": uf, "targets": targets, "frames": fs}
 
 
@@ -551,7 +560,7 @@ def metrics_scenes(ctx, d):
     all_results = {t: [[]] for t in tl}  # get_scene_result: {label: [[]]} then one list per frame
     all_num = {t: 0 for t in tl}
     total = {t: [0, 0, 0] for t in targets}
-    pooled_res, pooled_gt = [], 0
+    pooled_res, pooled_gt, outside_tp = [], 0, 0
     if any(t[2] == "false_positive" for fr in d["frames"] for t in fr["gt"]):
         for fr in d["frames"]:
             _match_and_check(ctx, fam, uf, fr["est"], fr["gt"])
@@ -575,6 +584,8 @@ def metrics_scenes(ctx, d):
                 total[t][k] += cnt[t][k]
         pooled_res.append(res)
         pooled_gt += len(gt)
+        # label-correct pairs whose label is not a target: counted by no per-label score, but by the all-results form below
+        outside_tp += sum(1 for i, j in rows if j is not None and E[i][2] == G[j][2] and E[i][2] not in targets)
     score = None
     with ctx.under_test("ClassificationMetricsScore(scene)"):
         score = L["Score"](object_results_dict=all_results, num_ground_truth_dict=all_num, target_labels=tl)
@@ -590,7 +601,7 @@ def metrics_scenes(ctx, d):
         # every result handed over is either a TP or an FP here — including an unknown-labelled estimate without ground
         # truth, which belongs to no label bucket of the per-label form
         R = sum(len(r) for r in pooled_res)
-        TP = sum(v[1] for v in total.values())
+        TP = sum(v[1] for v in total.values()) + outside_tp
         ctx.require(
             got.get("predict_num") == R and acc.num_tp == TP and acc.num_fp == R - TP,
             "direct:counts",
